@@ -154,8 +154,20 @@ func (c *compiler) write(bb *strings.Builder, i interface{}) {
 			c.write(bb, *t)
 		}
 	case interfaceable:
-		var inner interface{}
-		if _, err := safely(func() { inner = t.Interface() }); err == nil {
+		// what Interface() returns may be wrapped again; a value that
+		// gives itself (or never settles) prints nothing
+		var inner interface{} = t
+		for n := 0; n < 8; n++ {
+			w, wrapped := inner.(interfaceable)
+			if !wrapped {
+				c.write(bb, inner)
+				return
+			}
+			if _, err := safely(func() { inner = w.Interface() }); err != nil {
+				return
+			}
+		}
+		if _, wrapped := inner.(interfaceable); !wrapped {
 			c.write(bb, inner)
 		}
 	case string, ast.Printable, bool:
